@@ -15,6 +15,20 @@ void Exec::op_misuse(const Op& op) {
 #if defined(VF_PADDING)
   int s = (int)op.num("s"); if (s < 0 || s >= NSLOTS || !m.slots[s].live) return; Blk& b = m.slots[s];
   std::string kind = op.str("kind", "dfree");
+  // a block left behind by an ended thread (no home heap): only the overflow misuse applies (its free is a cross-thread free / a reclaim-on-free)
+  if (b.home < 1 && kind == "overflow" && b.home > -20 && !b.stranded && !b.foreign && b.u <= MiB) {
+    size_t n = b.n; uint8_t* p = b.p; if (!b.pristine || b.u < b.n || b.a > 1 || b.o != 0 || b.zmode || n == 0) { count(C_EXCLUDED); return; }
+    int efault0 = mi_errors[1], other0 = mi_errors[2] + mi_errors[5]; uint8_t v = (uint8_t)op.num("v", 1); if (v == 0 || v == 0xDE) v = 0x41;
+    verify_blk(s, "before-misuse"); p[n] = v; model_remove(s, true); expect_err = EFAULT;
+    if (op.num("thread", 0)) { ThreadJob j; j.ptrs.push_back(p); run_thread(j); } else mi_free(p);
+    expect_err = 0; count(C_FREES);
+    if (mi_errors[1] == efault0) fail_now("overflow-undetected", "op#%ld byte 0x%02x written at offset %zu (= requested size) of block %p (left behind by an ended thread) was not reported when the block was freed", opi, v, n, p);
+    if (mi_errors[2] + mi_errors[5] != other0) fail_now("misuse-other-error", "op#%ld unexpected error code reported (%d)", opi, last_err);
+    flag(F_MISUSE_DETECTED);
+#if defined(VF_DEBUG_BUILD)
+    stop_after_this_op = true;
+#endif
+    return; }
   if (b.home < 1 || !m.heaps[b.home].alive || b.foreign || b.stranded || b.u > MiB) { count(C_EXCLUDED); return; }
   // the block's area must keep at least one other live block (a second free after the whole area was released is outside the claim)
   AreaOf ao; ao.p = (uintptr_t)b.p; mi_heap_visit_blocks(m.heaps[b.home].h, false, &area_of_cb, &ao);
@@ -175,8 +189,9 @@ static void gen_option_prefix(Gen& g, uint64_t idx) {
   }
 }
 static Case gen_c17(Chooser& ch) {
-  Profile pf; pf.min_ops = 20; pf.max_ops = 120; pf.big_ok = false; pf.w_fill = 10; pf.w_holes = 6; pf.w_talloc = 0; pf.w_heap = 3; pf.p_aligned = 8; pf.w_realloc = 4; pf.w_visit = 2;
+  Profile pf; pf.min_ops = 20; pf.max_ops = 120; pf.big_ok = false; pf.w_fill = 10; pf.w_holes = 6; pf.w_talloc = 2; pf.w_heap = 3; pf.p_aligned = 8; pf.w_realloc = 4; pf.w_visit = 2;
   Gen g(ch, pf); int nops = (int)ch.range(20, 120); int misuses = 0;
+  if (ch.chance(1, 3)) g.out.push_back(Op("opt").s("name", "abandoned_reclaim_on_free").u("v", 1));   // the first free into an abandoned segment adopts it and frees locally
   while ((int)g.out.size() < nops) {
     if (g.out.size() > 6 && ch.chance(1, 7)) {
       int s = g.pick_live(); if (s < 0) { g.step(); continue; }
@@ -223,7 +238,10 @@ static Case gen_c18(Chooser& ch) {
     c.push_back(Op("opt").s("name", "eager_commit_delay").u("v", 0)); c.push_back(Op("opt").s("name", "arena_eager_commit").u("v", 1)); c.push_back(Op("opt").s("name", "eager_commit").u("v", 1)); }
   else if (ch.chance(1, 3)) c.push_back(Op("opt").s("name", "eager_commit_delay").u("v", ch.pick(3)));
   int slot = 0;
-  auto allocs = [&](int k, size_t n) { int s0 = slot; for (int i = 0; i < k; i++) c.push_back(Op("alloc").u("s", (uint64_t)slot++).s("f", ch.chance(1, 4) ? "zalloc" : "malloc").u("n", n).u("nt", 1)); return s0; };
+  // one time in five everything below lives in memory that the program hands to the allocator itself (mi_manage_os_memory_ex, committed or not),
+  // through a heap bound to that arena: purging must work there as well
+  int hsel = 0; if (ch.chance(1, 5)) { c.push_back(Op("arena").u("i", 0).s("how", "manage").u("size", (size_t)ch.range(8, 16) * 32*MiB).u("commit", ch.chance(2, 3)).u("excl", ch.chance(1, 2)).u("mustfit", 1)); c.push_back(Op("hnew").u("h", 2).s("kind", "arena").u("ar", 0)); hsel = 2; }
+  auto allocs = [&](int k, size_t n) { int s0 = slot; for (int i = 0; i < k; i++) { Op op("alloc"); op.u("s", (uint64_t)slot++).s("f", ch.chance(1, 4) ? "zalloc" : "malloc").u("n", n).u("nt", 1); if (hsel) op.u("h", (uint64_t)hsel); c.push_back(op); } return s0; };
   // a few ordinary small blocks first
   int base = allocs((int)ch.range(1, 20), (size_t)ch.range(8, 2000)); (void)base;
   // 1-3 cycles of (free whole pages / whole segments, let the delay pass, ordinary activity, expectation): a later cycle finds the purge
@@ -236,7 +254,7 @@ static Case gen_c18(Chooser& ch) {
     if (w1) {   // whole pages inside a segment that stays in use
       size_t n = (size_t)ch.range(64*KiB + 1, 4*MiB); int k = (int)ch.range(2, 6); int s0 = allocs(k, n); keepk = (int)ch.range(2, 4); keep0 = allocs(keepk, n);
       // free adjacent pages (they coalesce into one span) or every 2nd/3rd page (separate spans, each scheduled on its own within one delay window)
-      int step = (int)ch.range(1, 3); if (step > 1) { k = k * 2; for (int i = 0; i < k / 2; i++) c.push_back(Op("alloc").u("s", (uint64_t)slot++).s("f", "malloc").u("n", n).u("nt", 1)); }
+      int step = (int)ch.range(1, 3); if (step > 1) { k = k * 2; for (int i = 0; i < k / 2; i++) { Op op("alloc"); op.u("s", (uint64_t)slot++).s("f", "malloc").u("n", n).u("nt", 1); if (hsel) op.u("h", (uint64_t)hsel); c.push_back(op); } }
       c.push_back(Op("watch").u("s", (uint64_t)s0).u("k", (uint64_t)k)); c.push_back(Op("rfree").u("s", (uint64_t)s0).u("k", (uint64_t)k).u("step", (uint64_t)step).u("ph", 0)); nfrees += (size_t)k;
       keepk = slot - s0; keep0 = s0;   // the blocks left live in between serve as keepers too
       if (D == 0) c.push_back(Op("expect").s("what", "purged")); }
@@ -301,6 +319,7 @@ static void c15_event(int kind, void* addr, size_t len, int, int failed) {
 static Case gen_c15(Chooser& ch) {
   Profile pf; pf.min_ops = 15; pf.max_ops = 90; pf.p_heap_api = 75; pf.w_heap = 5; pf.w_talloc = 3; pf.w_tfree = 2; pf.w_visit = 1; pf.big_ok = false; pf.arenas = false; pf.w_fill = 9; pf.w_churn = 3;
   Gen g(ch, pf);
+  if (ch.chance(1, 3)) g.out.push_back(Op("opt").s("name", "abandoned_reclaim_on_free").u("v", 1));
   int na = (int)ch.range(1, 2);
   for (int i = 0; i < na; i++) {
     bool ex = ch.chance(2, 3); size_t size = (size_t)ch.range(2, 6) * 32*MiB; Op op("arena"); op.u("i", (uint64_t)i).u("excl", ex).u("commit", ch.chance(1, 4));
@@ -326,6 +345,7 @@ static Case gen_c15(Chooser& ch) {
       if (g.next_slot + (int)(kk + nbig + nsm) > NSLOTS || g.live_bytes + nbig * MiB > 400*MiB) continue;
       int s0 = g.next_slot; g.next_slot += (int)kk; g.out.push_back(Op("talloc").u("s", (uint64_t)s0).u("k", kk).u("n", tn).u("ar", (uint64_t)ai)); for (size_t i = 0; i < kk; i++) g.note_alloc(s0 + (int)i, 0, 1, 0, false, -1); g.groups.push_back({ s0, (int)kk, 0 });
       int hb = (g.heaps[5].alive && ch.chance(1, 3)) ? 5 : 0;
+      if (ch.chance(1, 2)) { g.out.push_back(Op("free").u("s", (uint64_t)s0)); g.note_free(s0); }   // a cross-thread free into the abandoned segment (with reclaim-on-free: an adoption attempt)
       int s1 = g.next_slot; g.next_slot += (int)nbig; { Op op("fill"); op.u("s", (uint64_t)s1).u("k", nbig).s("f", "malloc").u("n", MiB - 64).u("nt", 1); if (hb) op.u("h", (uint64_t)hb); g.out.push_back(op); } for (size_t i = 0; i < nbig; i++) g.note_alloc(s1 + (int)i, MiB - 64, 1, 0, false, hb ? hb : g.def); g.groups.push_back({ s1, (int)nbig, MiB - 64 });
       int s2 = g.next_slot; g.next_slot += (int)nsm; { Op op("fill"); op.u("s", (uint64_t)s2).u("k", nsm).s("f", "malloc").u("n", tn); if (hb) op.u("h", (uint64_t)hb); g.out.push_back(op); } for (size_t i = 0; i < nsm; i++) g.note_alloc(s2 + (int)i, tn, 1, 0, false, hb ? hb : g.def); g.groups.push_back({ s2, (int)nsm, tn });
       g.out.push_back(Op("rfree").u("s", (uint64_t)s1).u("k", nbig).u("step", 1).u("ph", 0)); for (size_t i = 0; i < nbig; i++) g.note_free(s1 + (int)i);
